@@ -171,6 +171,11 @@ RsaDef(e) ==
         /\ BLt(s, N)                                  \* 5.2.2 RSAVP1 step 1
         /\ RsaCore(e, s)
 
+(* signing: RFC 8017 8.2.1 - "RSA modulus too short" when k < tLen + 11 (PKCS#1 v1.5); a signature of k bytes otherwise *)
+RsaTLen(e) == IF e.flag = 0 THEN Len(Sha256Id) + HLen ELSE e.mlen
+RsaTooShort(e) == e.pad = "pkcs1" /\ e.k < RsaTLen(e) + 11
+RsaSigOk(e) == Clean(e) /\ (IF RsaTooShort(e) THEN e.ret # 0 ELSE e.ret = 0 /\ e.slen = e.k)
+
 RsaGenOk(e) ==
     /\ e.ok = 1
     /\ LET N == BnVal(e.N)  P == BnVal(e.P)  Q == BnVal(e.Q)  E == BnVal(e.E)  D == BnVal(e.D) IN
@@ -280,7 +285,7 @@ SigAccept(e) ==
       [] e.op = "ecss_sig"  -> EcSigOk(e, TRUE)
       [] e.op = "rsa_ver"   -> e.crash = 0 /\ Verdict(e, RsaDef(e))
       [] e.op = "rsa_gen"   -> RsaGenOk(e)
-      [] e.op = "rsa_sig"   -> Clean(e) /\ e.ret = 0 /\ e.slen = e.k
+      [] e.op = "rsa_sig"   -> RsaSigOk(e)
       [] e.op = "bls_ver"   -> BlsClaimOk(e) /\ Verdict(e, BlsDef(e))
       [] e.op = "bls_gen"   -> BlsGenOk(e)
       [] e.op \in {"bls_sig", "bbs_sig", "zss_sig"} -> Clean(e) /\ e.ret = 0
@@ -361,6 +366,10 @@ SigKnownKey(e) ==
                            /\ m = BFromBE(<<0, 1>> \o Ones(7) \o <<0>> \o T)
                      THEN "C05-rsa-pkcs1-seven-byte-padding-accepted"
                 ELSE ""
+      [] e.op = "rsa_sig" ->
+            \* the signer's half of the same finding: a signature with a 7-byte padding string is produced
+            IF Clean(e) /\ e.ret = 0 /\ e.slen = e.k /\ e.pad = "pkcs1" /\ e.k = RsaTLen(e) + 10
+            THEN "C05-rsa-pkcs1-seven-byte-padding-accepted" ELSE ""
       [] e.op = "bbs_ver" ->
             \* identity public key: e(sigma, [H(m)]G2 + O) = e(G1, G2) for sigma = [1 / H(m)]G1
             IF /\ Clean(e) /\ e.ret = 1 /\ e.mdl = 32 /\ RepOk(e, e.S) /\ T2Norm(e, e.pk) /\ T2Abs(e, e.pk).inf
